@@ -202,20 +202,44 @@ impl ByteCompiler<'_> {
                         } => {
                             let dst = self.register_allocator.alloc();
 
+                            // The property key of a nested pattern is consumed like any other
+                            // binding property: a following rest element must exclude it.
                             match name {
                                 PropertyName::Literal(ident) => {
                                     self.emit_get_property_by_name(&dst, None, object, ident.sym());
+                                    if rest_exits {
+                                        let key = self.register_allocator.alloc();
+                                        self.emit_store_literal(
+                                            Literal::String(
+                                                self.interner()
+                                                    .resolve_expect(ident.sym())
+                                                    .into_common(false),
+                                            ),
+                                            &key,
+                                        );
+                                        excluded_keys_registers.push(key);
+                                    }
                                 }
                                 PropertyName::Computed(node) => {
                                     let key = self.register_allocator.alloc();
                                     self.compile_expr(node, &key);
-                                    self.bytecode.emit_get_property_by_value(
-                                        dst.variable(),
-                                        key.variable(),
-                                        object.variable(),
-                                        object.variable(),
-                                    );
-                                    self.register_allocator.dealloc(key);
+                                    if rest_exits {
+                                        self.bytecode.emit_get_property_by_value_push(
+                                            dst.variable(),
+                                            key.variable(),
+                                            object.variable(),
+                                            object.variable(),
+                                        );
+                                        excluded_keys_registers.push(key);
+                                    } else {
+                                        self.bytecode.emit_get_property_by_value(
+                                            dst.variable(),
+                                            key.variable(),
+                                            object.variable(),
+                                            object.variable(),
+                                        );
+                                        self.register_allocator.dealloc(key);
+                                    }
                                 }
                             }
 
